@@ -1,4 +1,4 @@
-import GixModel.Lemmas.C20Left
+import GixModel.Lemmas.C20Modes
 /-
 C20 — Reference updates are crash-consistent.  PROPERTY THEOREMS ONLY.
 
@@ -258,6 +258,62 @@ theorem leftovers_are_locks_input (c : Cfg) (s : Store) (txn : List Edit) (h : T
     (fileAt s.toFs p).isSome = true ∨ (fileAt (applyAll (txnSteps c s txn) s.toFs) p).isSome = true ∨
       isLockPath p = true :=
   leftovers_are_locks c s txn (txnOk_of_input h) k p hp
+
+/-! ### the packed-refs update modes -/
+
+/-- `packed_old_or_new_modes` — clause (3) in ALL three modes (`DeletionsOnly`,
+`DeletionsAndNonSymbolicUpdates`, `…RemoveLooseSourceReference`): after any prefix of `txnStepsM`
+packed-refs is byte for byte the old file or the new one (the old records minus the deleted and the
+updated ones, merged with the object updates in name order — or no file at all when nothing
+remains), it parses, and the complete run leaves the new file. -/
+theorem packed_old_or_new_modes (cd : Codec) (m : Mode) (c : Cfg) (s : Store) (txn : List Edit)
+    (href : ∀ e ∈ txn, isRefName e.name = true) (hloose : ∀ x ∈ s.loose, isRefName x.1 = true)
+    (hchunk : ∀ bs, (c.chunk bs).flatten = bs) (hnl : s.toFs (lockPath packedPath) = none) (k : Nat) :
+    (fileAt (applyAll ((txnStepsM m c s txn).take k) s.toFs) packedPath = fileAt s.toFs packedPath ∨
+      fileAt (applyAll ((txnStepsM m c s txn).take k) s.toFs) packedPath = newPackedFileM m s txn) ∧
+    (∀ bytes, fileAt (applyAll ((txnStepsM m c s txn).take k) s.toFs) packedPath = some bytes →
+      (cd.parsePacked bytes).isSome = true) ∧
+    fileAt (applyAll (txnStepsM m c s txn) s.toFs) packedPath = newPackedFileM m s txn := by
+  have hq : Qpk packedPath = true := by simp [Qpk]
+  have hclosed : ∀ op ∈ txnStepsM m c s txn, touchesAny Qpk op = true → closedIn Qpk op = true := by
+    intro op ho ht
+    have hmem : op ∈ pk0 (s.hasGlobalLockM m txn) ++ packedCommitM m c s txn := by
+      rw [← filter_pk m c s txn href]; exact List.mem_filter.mpr ⟨ho, ht⟩
+    apply List.all_eq_true.mpr
+    intro t htm
+    rcases List.mem_append.mp hmem with hm | hm
+    · simp only [pk0] at hm
+      split at hm
+      · simp at hm; subst hm; simp [FsOp.touches] at htm; subst htm; simp [Qpk]
+      · cases hm
+    · rcases packedCommitM_touches m c s txn op hm t htm with rfl | rfl <;> simp [Qpk]
+  obtain ⟨hall, hfin⟩ := run_packedM m c s txn hchunk hloose hnl
+  have hk : fileAt (applyAll ((txnStepsM m c s txn).take k) s.toFs) packedPath = s.packed.map renderPacked ∨
+      fileAt (applyAll ((txnStepsM m c s txn).take k) s.toFs) packedPath = newPackedFileM m s txn := by
+    obtain ⟨j, hj⟩ := take_restrict Qpk (txnStepsM m c s txn) hclosed s.toFs k
+    rw [filter_pk m c s txn href] at hj
+    rw [fileAt_congr (hj _ hq)]
+    exact hall j
+  refine ⟨by rw [init_packed hloose]; exact hk, ?_, ?_⟩
+  · intro bytes hb
+    rcases hk with hp | hp
+    · rw [hp] at hb
+      cases hs : s.packed with
+      | none => simp [hs] at hb
+      | some rs => simp [hs] at hb; subst hb; simp [cd.packed_rt]
+    · rw [hp] at hb
+      unfold newPackedFileM at hb
+      split at hb
+      · split at hb
+        · cases hb
+        · simp at hb; subst hb; simp [cd.packed_rt]
+      · cases hs : s.packed with
+        | none => simp [hs] at hb
+        | some rs => simp [hs] at hb; subst hb; simp [cd.packed_rt]
+  · have hr := applyAll_restrict Qpk (txnStepsM m c s txn) hclosed s.toFs s.toFs (fun _ _ => rfl) _ hq
+    rw [filter_pk m c s txn href] at hr
+    rw [fileAt_congr hr]
+    exact hfin
 
 /-! ### non-vacuity -/
 
